@@ -10,7 +10,7 @@
 //                        transform <case>.xml with <case>.xsl (value-of of one expression / copy-of / key lookup /
 //                        xsl:number level=any at every node, method=text); reply: S<hex of the UTF-16 units of the output>
 //   xform <case> ...     transform <case>.xml with <case>.xsl; reply: X<hex of the output bytes>
-//   stripx / xformx      the same with the source parsed into a Xerces DOM (XercesDOMWrapper) instead of XalanSourceTree
+//   <kind>x              (stripx, evalx, copyx, keyx, numberx, numbersmx, xformx) the same with the source parsed into a Xerces DOM (XercesDOMWrapper) instead of XalanSourceTree
 //   errors               ERR:<what>
 //
 // Everything after <case> on the line is for the Lean driver and ignored here.
@@ -105,7 +105,7 @@ int main(int argc, char** argv)
             XalanTransformer xt;
             // a trailing 'x' on the kind: parse the source into a Xerces DOM (wrapped) instead of the XalanSourceTree
             bool xercesDom = false;
-            if (kind == "stripx" || kind == "xformx") { xercesDom = true; kind.erase(kind.size() - 1); }
+            if (kind.size() > 1 && kind[kind.size() - 1] == 'x') { xercesDom = true; kind.erase(kind.size() - 1); }
             if (kind == "strip")
             {
                 const XalanCompiledStylesheet* comp = 0;
